@@ -657,7 +657,7 @@ theorem route_step (hc : L3Contracts) (cfg : AddrCfg) (hcfg : CfgOk cfg) (L : Li
         rw [hs3ati, hs3n, hs3radi]; exact N3
       · rw [hs3at k hki]
         by_cases hkj : k = j
-        · subst hkj; rw [hs3radj]; exact hN'.of_eq_cfg rfl
+        · subst hkj; rw [hs3radj]; exact hN'.withRx _ _ _ hp5
         · rw [hs3rad k hk hki hkj]; exact hN'
     · intro k hk1 hkn
       obtain ⟨j', hj', htj', hja', hjl'⟩ := hahead (k + 1) (by omega) (by omega)
@@ -716,7 +716,7 @@ theorem route_step (hc : L3Contracts) (cfg : AddrCfg) (hcfg : CfgOk cfg) (L : Li
        by
         show (s3.radioAt j).rxMode = true
         rw [hs3radj]
-        exact (hNj.of_eq_cfg (r' := (s.radioAt j).withRx _ _) rfl).rxMode⟩
+        exact (hNj.withRx _ _ _ hp5).rxMode⟩
       (by
         intro k hk hrun
         obtain ⟨h1, _, h3, _⟩ := hrun
